@@ -30,23 +30,20 @@ func LimitContentSecurityHandler(limitBytes int64, decrypters map[string]codec.R
 
 	return func(next http.Handler) http.Handler {
 		return http.HandlerFunc(func(w http.ResponseWriter, r *http.Request) {
-			switch r.Method {
-			case http.MethodDelete, http.MethodGet, http.MethodPost, http.MethodPut:
-				header, err := security.ParseContentSecurity(decrypters, r)
-				if err != nil {
-					logc.Errorf(r.Context(), "Signature parse failed, X-Content-Security: %s, error: %s",
-						r.Header.Get(contentSecurity), err.Error())
-					executeCallbacks(w, r, next, strict, httpx.CodeSignatureInvalidHeader, callbacks)
-				} else if code := security.VerifySignature(r, header, tolerance); code != httpx.CodeSignaturePass {
-					logc.Errorf(r.Context(), "Signature verification failed, X-Content-Security: %s",
-						r.Header.Get(contentSecurity))
-					executeCallbacks(w, r, next, strict, code, callbacks)
-				} else if r.ContentLength > 0 && header.Encrypted() {
-					LimitCryptionHandler(limitBytes, header.Key)(next).ServeHTTP(w, r)
-				} else {
-					next.ServeHTTP(w, r)
-				}
-			default:
+			// every method is verified: routes may be registered for PATCH, HEAD and OPTIONS as well,
+			// and a signature gate that lets those through unsigned protects nothing on them.
+			header, err := security.ParseContentSecurity(decrypters, r)
+			if err != nil {
+				logc.Errorf(r.Context(), "Signature parse failed, X-Content-Security: %s, error: %s",
+					r.Header.Get(contentSecurity), err.Error())
+				executeCallbacks(w, r, next, strict, httpx.CodeSignatureInvalidHeader, callbacks)
+			} else if code := security.VerifySignature(r, header, tolerance); code != httpx.CodeSignaturePass {
+				logc.Errorf(r.Context(), "Signature verification failed, X-Content-Security: %s",
+					r.Header.Get(contentSecurity))
+				executeCallbacks(w, r, next, strict, code, callbacks)
+			} else if r.ContentLength > 0 && header.Encrypted() {
+				LimitCryptionHandler(limitBytes, header.Key)(next).ServeHTTP(w, r)
+			} else {
 				next.ServeHTTP(w, r)
 			}
 		})
